@@ -513,7 +513,7 @@ def panic_key(m):
     f = m.group(1)
     if f.startswith("/rustc/"):
         f = "rust:" + f.split("/library/", 1)[-1]
-    msg = re.sub(r"\d+", "N", m.group(3).strip())
+    msg = re.sub(r"\d+", "N", m.group(3).strip().split(":")[0])
     msg = re.sub(r"[^A-Za-z0-9N<>_ .-]", "", msg)[:48].strip().replace(" ", "-")
     return f"panic@{f}:{msg}"
 
